@@ -181,11 +181,12 @@ func c03Run(r *Run, c c03Config) {
 	}{
 		{"burn132v0", goodBurn},
 		{"burn131", goodBurn[:131]},
+		{"burn132v0-amount0", RefBurn(0, token, pad32(mintTo.Addr), big.NewInt(0), distinct32(0x55))}, // the token factory refuses to mint zero
 		{"burn133", append(append([]byte{}, goodBurn...), 0)},
 		{"burn132v1", RefBurn(1, token, pad32(mintTo.Addr), amount, distinct32(0x55))},
 	}
 	if quick {
-		burnShapes = burnShapes[:2]
+		burnShapes = burnShapes[:3]
 	}
 	for _, bs := range burnShapes {
 		bodies = append(bodies,
